@@ -24,6 +24,7 @@ Step(e) ==
     \* 1 stage pipelines (state predicates)
     \/ e.op = "stream"   /\ StreamOk(e.stages, Fl(e), e.in, e.ok, e.out_ids, e.out_vals) /\ Pure
     \/ e.op = "chain"    /\ ChainOk(e.stages, Fl(e), e.x, e.ok, e.out) /\ Pure
+    \/ e.op = "batch1"   /\ BatchChainOk(e.kind, Fl(e), e.in, e.ok, e.out) /\ Pure
     \/ e.op = "mapf"     /\ MapFOk(e.in, e.fail, e.ok, e.out) /\ Pure
     \/ e.op = "filter"   /\ FilterOk(e.in, e.ok, e.out) /\ Pure
     \* 2 batch collector
@@ -53,6 +54,7 @@ Step(e) ==
     \/ e.op = "fwrite_all" /\ FWriteAll(e.data, e.ok) /\ NoBC /\ NoFib
     \/ e.op = "fcontent" /\ FContent(e.bytes) /\ NoBC /\ NoFib
     \/ e.op = "copy"     /\ CopyOk(e.src, e.ok, e.n, e.dst) /\ Pure
+    \/ e.op = "copy_from" /\ CopyFromOk(e.src, e.pos, e.ok, e.n, e.dst) /\ Pure
     \/ e.op = "roundtrip" /\ RoundTripOk(e.data, e.wok, e.now, e.rok, e.got) /\ Pure
     \/ e.op = "vread"    /\ VReadOk(e.src, e.sizes, e.ok, e.total, e.got) /\ Pure
     \/ e.op = "vwrite"   /\ VWriteOk(e.bufs, e.ok, e.total, e.dst) /\ Pure
